@@ -162,10 +162,10 @@ class Pair:
 
     def __init__(self, sim, link=None, host_keys=("rsa1",), client_kw=None, server_kw=None,
                  server=None, client_cls=Transport, server_cls=Transport,
-                 client_pk=None, server_pk=None, observe=True):
+                 client_pk=None, server_pk=None, observe=True, plog=None):
         self.sim = sim
         self.link = link or Link(sim)
-        self.plog = [] if observe else None
+        self.plog = plog if plog is not None else ([] if observe else None)
         ckw = dict(client_kw or {})
         skw = dict(server_kw or {})
         if observe:
